@@ -175,16 +175,24 @@ pub struct XlsxCase {
     pub doc: XlsxDoc,
 }
 
-/// style table: custom formats (ids >= 164, shuffled) + XFs referencing custom and built-in ids
+/// style table: custom formats (ids >= 164 or a reserved user id below, shuffled) + XFs referencing custom and built-in ids
 pub fn styles_strategy() -> impl Strategy<Value = XStyles> {
     let builtin = proptest::sample::select(vec![0u32, 1, 2, 9, 10, 11, 13, 14, 15, 16, 17, 18, 19, 20, 21, 22, 37, 40, 44, 45, 46, 47, 48, 49]);
     (proptest::collection::vec(fmt_strategy(), 0..5), proptest::collection::vec(any::<u16>(), 0..5), 0u8..3, any::<bool>(), proptest::collection::vec(prop_oneof![2 => builtin.prop_map(|b| (false, b)), 3 => (0u32..5).prop_map(|k| (true, k))], 1..7), proptest::collection::vec(any::<u8>(), 0..4))
         .prop_map(|(fmts, idkeys, cell_style_xfs, dxf_decoy, xfs, shuffle)| {
-            // distinct custom ids >= 164, in any order in the file
+            // distinct custom ids, in any order in the file: mostly >= 164, sometimes one of the ids
+            // below 164 that the formats reserve for user-defined strings (5-8, 23-26, 41-44, 63-66)
+            const LOW: [u32; 16] = [5, 6, 7, 8, 23, 24, 25, 26, 41, 42, 43, 44, 63, 64, 65, 66];
+            let mut used = std::collections::BTreeSet::new();
             let mut num_fmts: Vec<(u32, String, u8)> = fmts
                 .into_iter()
                 .enumerate()
-                .map(|(i, f)| (164 + i as u32 * 3 + idkeys.get(i).map_or(0, |k| (*k % 3) as u32), f.code, f.class))
+                .map(|(i, f)| {
+                    let key = idkeys.get(i).copied().unwrap_or(0);
+                    let low = LOW[(key / 4) as usize % 16];
+                    let id = if key % 4 == 3 && used.insert(low) { low } else { 164 + i as u32 * 3 + (key % 3) as u32 };
+                    (id, f.code, f.class)
+                })
                 .filter(|(_, code, _)| !code.is_empty())
                 .collect();
             let n = num_fmts.len();
@@ -415,7 +423,7 @@ fn xlsb_case_strategy() -> impl Strategy<Value = XlsbCase> {
                         2 => bb::BbRec::FmlaNum(v, vec![0x1E, 1, 0]),
                         _ => bb::BbRec::Real(v),
                     };
-                    bb::BbRow { r: i as u32, before: vec![], cells: vec![bb::BbCell { col: (i % 3) as u32, style, rec }] }
+                    bb::BbRow { r: i as u32, before: vec![], cells: vec![bb::BbCell { col: (i % 3) as u32, style: style | if enc & 0x40 != 0 { 1 << 24 } else { 0 }, rec }] }
                 })
                 .collect();
             XlsbCase { doc: bb::XlsbDoc { sheets: vec![bb::BbSheet { name: "D".into(), rows, ..Default::default() }], styles: Some(bb::BbStyles { fmts, fonts, style_xfs, xfs }), date1904, ..Default::default() } }
